@@ -647,8 +647,9 @@ def corr_crossing(ctx: Ctx, drv):
 
 def run(ctx: Ctx):
     leanproj.check_theorems(ctx, MODULE, THEOREMS)
-    from .registry import THEOREMS_C17B
+    from .registry import THEOREMS_C17B, THEOREMS_C17C
     leanproj.check_theorems(ctx, "PyseqmVerif.Properties.C17b", THEOREMS_C17B)
+    leanproj.check_theorems(ctx, "PyseqmVerif.Properties.C17c", THEOREMS_C17C)
     drv = leanproj.Driver()
     try:
         try:
